@@ -102,3 +102,53 @@ def surface(d):
                 if pub:
                     out.add("public field %s.%s" % (it.get("name"), fname))
     return sorted(out)
+
+
+PRIMS = {"u8", "u16", "u32", "u64", "u128", "usize", "i8", "i16", "i32", "i64", "i128", "isize", "bool"}
+
+
+def plain_callables(d):
+    """{fact: (owner type or None, function name, [primitive parameter types])} for public functions that take no
+    `self` and only integers / booleans: the shape of a process-wide setter"""
+    idx = d["index"]
+    out = {}
+
+    def sig_of(fn):
+        ins = fn["inner"]["function"]["sig"]["inputs"]
+        if any(n == "self" for n, _ in ins):
+            return None
+        tys = []
+        for _, t in ins:
+            if isinstance(t, dict) and t.get("primitive") in PRIMS:
+                tys.append(t["primitive"])
+            else:
+                return None
+        if fn["inner"]["function"]["generics"]["params"]:
+            return None
+        return tys
+    for it in idx.values():
+        if it.get("crate_id") != 0 or _kind(it) != "impl":
+            continue
+        im = it["inner"]["impl"]
+        if im.get("trait") is not None or im.get("is_synthetic") or im.get("blanket_impl") is not None:
+            continue
+        f = im.get("for")
+        owner = f.get("resolved_path", {}).get("path") if isinstance(f, dict) else None
+        if owner is None:
+            continue
+        if any("type" in p.get("kind", {}) or "const" in p.get("kind", {}) for p in im.get("generics", {}).get("params", [])):
+            continue   # generic owner: the call would need type arguments nobody can guess
+        for mid in im.get("items", []):
+            m = idx.get(str(mid)) or idx.get(mid)
+            if m is None or m.get("visibility") != "public" or _kind(m) != "function":
+                continue
+            tys = sig_of(m)
+            if tys is not None:
+                out["method %s::%s" % (owner, m["name"])] = (owner.split("::")[-1], m["name"], tys)
+    paths = d.get("paths", {})
+    for id_, it in idx.items():
+        if it.get("crate_id") == 0 and _kind(it) == "function" and it.get("visibility") == "public" and (paths.get(id_) or paths.get(str(id_))):
+            tys = sig_of(it)
+            if tys is not None:
+                out["function %s" % "::".join((paths.get(id_) or paths.get(str(id_)))["path"])] = (None, it["name"], tys)
+    return out
